@@ -199,6 +199,7 @@ class Lexer:
         :raises JMCSyntaxException: Path in `@import` is invalid
         :raises JMCSyntaxException: _description_
         """
+        file_path = file_path.resolve()
         if file_path in self.datapack._imported:
             return
         self.datapack._imported.add(file_path)
@@ -263,7 +264,7 @@ class Lexer:
                     "\\*"
                 ):
                     try:
-                        folder = Path(command[1].string[:-2])
+                        folder = file_path.parent / command[1].string[:-2]
                     except Exception as error:
                         raise JMCSyntaxException(
                             f"Unexpected invalid path ({command[1].string})",
